@@ -8,7 +8,8 @@ import (
 )
 
 //vp:property C10
-//vp:set n 24 40
+//vp:set n 24 28
+//vp:set maxpaths 200000 600000
 //vp:bounds one arbitrary message of every length 0..n (all byte values; the NTLMSSP signature and the message type are for the solver to choose) sent to a fresh session and to a session that already answered a negotiate
 //vp:reach answered
 func VP_C10_ntlm_message() {
